@@ -58,6 +58,7 @@ End TexprInd.
 Section Sound.
   Variable policy : callable -> bool.
   Variable invoke_result : callable -> list cval -> cval.
+  Variable format_result : callable -> list cval -> cval.
   Variable env : string -> cval.
   Variable attr_of : cval -> string -> cval.
   Variable item_of : list cval -> cval.
@@ -65,13 +66,18 @@ Section Sound.
   Variable test_res : string -> list cval -> cval.
   Variable op_res : string -> list cval -> cval.
 
-  Notation ev := (eval policy invoke_result env attr_of item_of filter_res test_res op_res).
-  Notation scall := (sandbox_call policy invoke_result).
+  Notation ev := (eval policy invoke_result format_result env attr_of item_of filter_res test_res op_res).
+  Notation scall := (sandbox_call policy invoke_result format_result).
 
-  (* a log of completed gated calls: check-true immediately followed by the invocation *)
+  (* a log of completed gated calls: check-true immediately followed by the invocation — a
+     native invocation only of something that is not a bound str.format; a bound str.format is
+     run by the sandboxed formatter instead *)
   Inductive passes : list event -> Prop :=
     | passes_nil : passes []
-    | passes_cons : forall c r, policy c = true -> passes r -> passes (EvCheck c true :: EvInvoke c :: r).
+    | passes_cons : forall c r, policy c = true -> c_format c = false -> passes r ->
+        passes (EvCheck c true :: EvInvoke c :: r)
+    | passes_fmt : forall c r, policy c = true -> passes r -> passes (EvCheck c true :: EvFormat c :: r)
+    | passes_wrap : forall c r, passes r -> passes (EvFormat c :: r).
 
   (* a log of an evaluation: completed gated calls, optionally ended by a refused check *)
   Inductive ok_log : list event -> Prop :=
@@ -94,7 +100,12 @@ Section Sound.
     end.
 
   Lemma passes_app : forall a b, passes a -> passes b -> passes (a ++ b).
-  Proof. intros a b Ha Hb. induction Ha as [|c r Hc _ IH]; [exact Hb|]. cbn. constructor; assumption. Qed.
+  Proof.
+    intros a b Ha Hb. induction Ha as [|c r Hc Hf _ IH|c r Hc _ IH|c r _ IH]; [exact Hb| | |]; cbn.
+    - apply passes_cons; assumption.
+    - apply passes_fmt; assumption.
+    - apply passes_wrap; assumption.
+  Qed.
 
   Lemma ok_log_app : forall a b, passes a -> ok_log b -> ok_log (a ++ b).
   Proof.
@@ -123,10 +134,13 @@ Section Sound.
 
   Lemma scall_good : forall fv vs, good (scall fv vs).
   Proof.
-    intros fv vs. unfold good, sandbox_call. destruct fv as [n|c|]; cbn; try exact passes_nil.
-    destruct (policy c) eqn:Hp; cbn.
-    - constructor; [exact Hp|exact passes_nil].
-    - exact (ok_refused [] c passes_nil Hp).
+    intros fv vs. unfold good, sandbox_call. destruct fv as [n|c|c|]; cbn; try exact passes_nil.
+    - destruct (policy c) eqn:Hp; cbn.
+      + destruct (c_format c) eqn:Hf; cbn.
+        * apply passes_fmt; [exact Hp|exact passes_nil].
+        * apply passes_cons; [exact Hp|exact Hf|exact passes_nil].
+      + exact (ok_refused [] c passes_nil Hp).
+    - apply passes_wrap. exact passes_nil.
   Qed.
 
   Lemma apply_scall_good : forall s, good_seq s -> good (apply scall s).
@@ -195,21 +209,27 @@ Section Sound.
 
   (* ---- what a good log means *)
   Lemma passes_invoke : forall l c, passes l -> In (EvInvoke c) l ->
-    policy c = true /\ exists pre post, l = pre ++ EvCheck c true :: EvInvoke c :: post.
+    policy c = true /\ c_format c = false /\ exists pre post, l = pre ++ EvCheck c true :: EvInvoke c :: post.
   Proof.
-    intros l c H. induction H as [|c0 r Hc _ IH]; intro Hin; [contradiction|].
-    destruct Hin as [Hin|[Hin|Hin]]; [discriminate| |].
-    - injection Hin as ->. split; [exact Hc|]. exists [], r. reflexivity.
-    - destruct (IH Hin) as [Hp [pre [post ->]]]. split; [exact Hp|].
-      exists (EvCheck c0 true :: EvInvoke c0 :: pre), post. reflexivity.
+    intros l c H. induction H as [|c0 r Hc Hf _ IH|c0 r Hc _ IH|c0 r _ IH]; intro Hin; [contradiction| | |].
+    - destruct Hin as [Hin|[Hin|Hin]]; [discriminate| |].
+      + injection Hin as ->. split; [exact Hc|]. split; [exact Hf|]. exists [], r. reflexivity.
+      + destruct (IH Hin) as [Hp [Hf' [pre [post ->]]]]. split; [exact Hp|]. split; [exact Hf'|].
+        exists (EvCheck c0 true :: EvInvoke c0 :: pre), post. reflexivity.
+    - destruct Hin as [Hin|[Hin|Hin]]; [discriminate|discriminate|].
+      destruct (IH Hin) as [Hp [Hf' [pre [post ->]]]]. split; [exact Hp|]. split; [exact Hf'|].
+      exists (EvCheck c0 true :: EvFormat c0 :: pre), post. reflexivity.
+    - destruct Hin as [Hin|Hin]; [discriminate|].
+      destruct (IH Hin) as [Hp [Hf' [pre [post ->]]]]. split; [exact Hp|]. split; [exact Hf'|].
+      exists (EvFormat c0 :: pre), post. reflexivity.
   Qed.
 
   Lemma ok_log_invoke : forall l c, ok_log l -> In (EvInvoke c) l ->
-    policy c = true /\ exists pre post, l = pre ++ EvCheck c true :: EvInvoke c :: post.
+    policy c = true /\ c_format c = false /\ exists pre post, l = pre ++ EvCheck c true :: EvInvoke c :: post.
   Proof.
     intros l c H Hin. destruct H as [l Hl|l c0 Hl Hc0]; [exact (passes_invoke l c Hl Hin)|].
     apply in_app_or in Hin as [Hin|[Hin|[]]]; [|discriminate].
-    destruct (passes_invoke l c Hl Hin) as [Hp [pre [post ->]]]. split; [exact Hp|].
+    destruct (passes_invoke l c Hl Hin) as [Hp [Hf [pre [post ->]]]]. split; [exact Hp|]. split; [exact Hf|].
     exists pre, (post ++ [EvCheck c0 false]). rewrite <- app_assoc. reflexivity.
   Qed.
 
@@ -218,21 +238,35 @@ Section Sound.
 
   Lemma eval_invoke_checked : forall t c, gated t = true -> In (EvInvoke c) (fst (ev t)) ->
     policy c = true /\ exists pre post, fst (ev t) = pre ++ EvCheck c true :: EvInvoke c :: post.
-  Proof. intros t c Hg Hin. exact (ok_log_invoke _ c (good_log_ok _ (eval_good t Hg)) Hin). Qed.
+  Proof.
+    intros t c Hg Hin. destruct (ok_log_invoke _ c (good_log_ok _ (eval_good t Hg)) Hin) as [Hp [_ He]]. auto.
+  Qed.
+
+  (* a bound str.format / format_map is never run natively: the sandboxed formatter runs instead *)
+  Lemma eval_format_never_native : forall t c, gated t = true -> c_format c = true -> ~ In (EvInvoke c) (fst (ev t)).
+  Proof.
+    intros t c Hg Hf Hin. destruct (ok_log_invoke _ c (good_log_ok _ (eval_good t Hg)) Hin) as [_ [Hf' _]]. congruence.
+  Qed.
 
   Lemma eval_unsafe_never_runs : forall t c, gated t = true -> policy c = false -> ~ In (EvInvoke c) (fst (ev t)).
   Proof. intros t c Hg Hp Hin. destruct (eval_invoke_checked t c Hg Hin) as [Hp' _]. congruence. Qed.
+
+  Lemma passes_no_refusal : forall l c, passes l -> ~ In (EvCheck c false) l.
+  Proof.
+    intros l c H. induction H as [|c1 r _ _ _ IH|c1 r _ _ IH|c1 r _ IH]; intro Hin; [contradiction| | |].
+    - destruct Hin as [Hin|[Hin|Hin]]; [discriminate|discriminate|exact (IH Hin)].
+    - destruct Hin as [Hin|[Hin|Hin]]; [discriminate|discriminate|exact (IH Hin)].
+    - destruct Hin as [Hin|Hin]; [discriminate|exact (IH Hin)].
+  Qed.
 
   (* a refused check is the last event and the outcome is SecurityError *)
   Lemma refused_is_last : forall l c, ok_log l -> In (EvCheck c false) l ->
     policy c = false /\ exists pre, l = pre ++ [EvCheck c false] /\ passes pre.
   Proof.
     intros l c H Hin. destruct H as [l Hl|l c0 Hl Hc0].
-    - exfalso. induction Hl as [|c1 r _ _ IH]; [contradiction|].
-      destruct Hin as [Hin|[Hin|Hin]]; [discriminate|discriminate|exact (IH Hin)].
+    - exfalso. exact (passes_no_refusal l c Hl Hin).
     - apply in_app_or in Hin as [Hin|[Hin|[]]].
-      + exfalso. induction Hl as [|c1 r _ _ IH]; [contradiction|].
-        destruct Hin as [Hin|[Hin|Hin]]; [discriminate|discriminate|exact (IH Hin)].
+      + exfalso. exact (passes_no_refusal l c Hl Hin).
       + injection Hin as ->. split; [exact Hc0|]. exists l. split; [reflexivity|exact Hl].
   Qed.
 
@@ -240,7 +274,11 @@ Section Sound.
   Lemma gate_refuses : forall c args, policy c = false -> scall (CVCallable c) args = ([EvCheck c false], OSecurityError).
   Proof. intros c args H. unfold sandbox_call. rewrite H. reflexivity. Qed.
 
-  Lemma gate_allows : forall c args, policy c = true ->
+  Lemma gate_allows : forall c args, policy c = true -> c_format c = false ->
     scall (CVCallable c) args = ([EvCheck c true; EvInvoke c], OVal (invoke_result c args)).
-  Proof. intros c args H. unfold sandbox_call. rewrite H. reflexivity. Qed.
+  Proof. intros c args H Hf. unfold sandbox_call. rewrite H, Hf. reflexivity. Qed.
+
+  Lemma gate_formats : forall c args, policy c = true -> c_format c = true ->
+    scall (CVCallable c) args = ([EvCheck c true; EvFormat c], OVal (format_result c args)).
+  Proof. intros c args H Hf. unfold sandbox_call. rewrite H, Hf. reflexivity. Qed.
 End Sound.
